@@ -26,7 +26,7 @@ ASSUMPTIONS = [
     "gcd/lcm specification is claimed on naturals (sign conventions of math.gcd / floor division are modelled exactly but the "
     "property speaks of the greatest/least element, which fixes no sign)",
     "factorization / phi / carmichael: primality of a cofactor > 1229 accepted by the `if is_prime(n)` shortcut rests on is_prime being sound on "
-    "(1229, n] (bounded hypothesis: follows from psi below 2^64; discharged by kernel evaluation below 4096: is_prime_exact_below_4096)",
+    "(1229, n] (bounded hypothesis: follows from psi below 2^64; discharged by kernel evaluation below 65536: is_prime_exact_below_65536)",
 ]
 
 SPSP = [2047, 1373653, 25326001, 3215031751, 2152302898747, 3474749660383, 341550071728321, 3825123056546413051,
